@@ -140,11 +140,11 @@ func WellFormed(nl *sbom.NodeList, normalised bool) error {
 
 // GraphOpts drives GenNodeList.
 type GraphOpts struct {
-	IDs        []string        // id pool (default SmallIDs)
-	Extra      []string        // ids that are never nodes (dangling references) when !WellFormed
-	WellFormed bool            // only references to present nodes
-	MaxNodes   int             // default 5
-	MaxEdges   int             // default 6
+	IDs        []string         // id pool (default SmallIDs)
+	Extra      []string         // ids that are never nodes (dangling references) when !WellFormed
+	WellFormed bool             // only references to present nodes
+	MaxNodes   int              // default 5
+	MaxEdges   int              // default 6
 	Types      []sbom.Edge_Type // default contains, dependsOn
 	NodeGen    func(t *rapid.T, id string) *sbom.Node
 	Normalised bool // at most one edge per (from,type), no repeated targets
